@@ -92,6 +92,9 @@ def _faults():
         ("dword", ".dword {V}", lambda v: not (-2 ** 32 < v < 2 ** 32), 7, None),
         ("imm", "mov #{V}, r0", lambda v: not (-65536 < v < 65536), 5, None),
         ("index", "mov r1, {V}(r2)", lambda v: not (-65536 < v < 65536), 8, None),
+        ("index-sum", "mov r1, 2+{V}(r2)", lambda v: not (-65536 < v + 2 < 65536), 8, None),
+        ("index-sum-deferred", "clr @2+{V}(r3)", lambda v: not (-65536 < v + 2 < 65536), 5, None),
+        ("index-product-src", "mov 2*{V}(r2), r0", lambda v: not (-65536 < v * 2 < 65536), 4, None),
         ("abs", "clr @#{V}", lambda v: not (-65536 < v < 65536), 6, None),
         ("blkb", ".blkb {V}", lambda v: not (0 <= v < 65536), 6, ("le", 6)),
         ("branch", "br .+{V}", lambda v: (v - 2) % 2 == 1 or not (-256 <= v - 2 <= 254), 0, None),
@@ -149,7 +152,7 @@ def h_diag(params, vals, ctx):
             require(bound[1] <= v <= bound[2])
     require(trigger(v))
     prefix, placement = params["prefix"], params["placement"]
-    body = prefix + stmt + "\nnop\n"
+    body = prefix + stmt + params.get("suffix", "\nnop\n")
     order = ["V"]
     sfx = "" if ctx.route == "inject" else f"_t{os.getpid()}"
     tag = params["tag"]
@@ -250,6 +253,37 @@ def h_crossfile(params, vals, ctx):
     return ok
 
 
+def h_same_spelling(params, vals, ctx):
+    """Two different files that are spelled identically where they are included (each resolved against its includer's directory):
+    a fault planted in the second one is reported against the second one."""
+    v = vals["V"]
+    require(not (-256 < v < 256))
+    sfx = "" if ctx.route == "inject" else f"_t{os.getpid()}"
+    d1, d2 = f"ss{sfx}/video", f"ss{sfx}/sound"
+    good = "nop\n.byte 1, 2\n"
+    bad = "nop\n.byte 1, {V}\n"
+    order = ["V"]
+    write_aux_file("c17/" + d1, "defs.mac", good)
+    bad_path = write_aux_file("c17/" + d2, "defs.mac", render(bad, order, vals, ctx.route))
+    if params["layout"] == "nested":
+        write_aux_file("c17/" + d1, "part.mac", '.include "defs.mac"\n')
+        write_aux_file("c17/" + d2, "part.mac", 'nop\n.include "defs.mac"\n')
+        files = [(os.path.join(AUX, f"ss{sfx}", "main.mac"), '.include "video/part.mac"\n.include "sound/part.mac"\n')]
+    else:
+        files = [(os.path.join(AUX, d1, "a.mac"), '.include "defs.mac"\n'), (os.path.join(AUX, d2, "b.mac"), 'nop\n.include "defs.mac"\n')]
+    o = assemble(files, vals, route=ctx.route, order=order)
+    ctx.observe_outcome(o)
+    ctx.reach(o.status == "failed")
+    if o.status != "failed":
+        return False
+    errs = [d for d in o.diags if d[0] != "warning"]
+    if len(errs) != 1 or errs[0][1] != "value-out-of-bounds":
+        return False
+    sp = errs[0][2][0]
+    want = bad.index("{V}") + (1 if (ctx.route == "text" and v < 0) else 0)
+    return sp[0] == bad_path and sp[2] == bad_path and sp[1] == want
+
+
 def h_bare(params, vals, ctx):
     """--report-format=bare prints file:line:col of the first span = the reference position of the planted token."""
     from pdpy11 import reports
@@ -299,11 +333,23 @@ def obligations(tier, seed):
                   timeout=1500, per_path=120, pre="every string of <= 3 characters over {a, TAB, LF, blank, Cyrillic Zhe} and every position (realised)"))
     combos = [(f[0], i, pl) for f in _faults() for i in range(len(PREFIXES)) for pl in ("main", "second", "included")]
     if tier == "quick":
+        # every fault in every placement at least once (seeded prefix), the rest of the budget at random
+        must = [(f[0], rnd.randrange(len(PREFIXES)), pl) for f in _faults() for pl in ("main", "second", "included")]
         rnd.shuffle(combos)
-        combos = sorted(combos[:150])
+        combos = sorted(set(must + combos[:70]))
     for k, (fid, pi, pl) in enumerate(combos):
         obs.append(Ob(oid=f"span/{fid}/p{pi}/{pl}", harness=P + "h_diag", params={"fault": fid, "prefix": PREFIXES[pi], "placement": pl, "tag": f"T{k}"},
                       vars={"V": "int"}, timeout=300, per_path=90, note=(PREFIXES[pi] + dict((f[0], f[1]) for f in _faults())[fid]).replace("\n", " / ")))
+    # the faulty statement is the last line of its file, with and without a final newline
+    for k, f in enumerate(_faults()):
+        for j, suffix in enumerate(("", "\n")):
+            pl = ("main", "second", "included")[(k + j) % 3] if tier == "quick" else None
+            for place in ([pl] if pl else ["main", "second", "included"]):
+                obs.append(Ob(oid=f"span-eof/{f[0]}/{'no-newline' if suffix == '' else 'newline'}/{place}", harness=P + "h_diag",
+                              params={"fault": f[0], "prefix": "nop\n", "placement": place, "tag": f"E{k}{j}{place[0]}", "suffix": suffix},
+                              vars={"V": "int"}, timeout=300, per_path=90))
+    for layout in ("nested", "linked"):
+        obs.append(Ob(oid=f"crossfile/same-spelling-includes/{layout}", harness=P + "h_same_spelling", params={"layout": layout}, vars={"V": "int"}, timeout=300))
     for kind in ("duplicate-export", "duplicate-extern", "sob-forward"):
         for names in (("a_first.mac", "z_second.mac"), ("z_first.mac", "a_second.mac"), ("m.mac", "lib.mac")):
             obs.append(Ob(oid=f"crossfile/{kind}/{names[0]}+{names[1]}", harness=P + "h_crossfile", params={"kind": kind, "names": list(names)},
